@@ -95,32 +95,62 @@ theorem mapM_option_eq_none {α β : Type} (f : α → Option β) (l : List α) 
           · rw [ha] at hfx; simp at hfx
           · exact absurd ⟨x, hx, hfx⟩ hno
 
-/-- **Exactly when the raising calls raise**: `remove` raises `KeyError` iff the agent is not a member; `sort` and `groupby`
-    raise `AttributeError` iff some member lacks the key attribute (whatever `ascending` / `inplace` / `result_type`); `pop`
-    raises `KeyError` iff the set is empty — and in each of these cases the store a history continues from is the old one. -/
+/-- what a key function reads: the attribute whose absence makes it raise `AttributeError` (`none`: it reads none) -/
+def Key.reads : Key → Option Nat
+  | .attr k | .modAttr k _ | .negAttr k => some k
+  | .ty | .uid => none
+
+/-- **Exactly when the raising calls raise, and what** (review 3, M15: the errors are named, the key functions are the
+    well-formed ones — `a.k % 0` is Python's `ZeroDivisionError`, which the model has no arm for and the driver refuses):
+    `remove` raises `KeyError` iff the agent is not a member and raises nothing else; `sort` and `groupby` raise
+    `AttributeError` iff some member lacks the attribute the key function reads (whatever `ascending` / `inplace` /
+    `result_type`; keys on the class or on `unique_id` never raise) and raise nothing else; `pop` raises `KeyError` iff the set
+    is empty and nothing else — and in each of these cases the store a history continues from is the old one. -/
 theorem C18_agents_reject_exactly_when (st : Store) (s : Nat) :
-    (∀ a, (remove st s a = .error .key ↔ a ∉ st.get s) ∧ (a ∉ st.get s → applyOp st (.remove s a) = st)) ∧
-    (∀ key asc inplace, (sort st s key asc inplace = .error .attr ↔ ∃ i ∈ st.get s, key.eval (st.agent i) = none) ∧
+    (∀ a, (remove st s a = .error .key ↔ a ∉ st.get s) ∧ (∀ e, remove st s a = .error e → e = .key) ∧
+      (a ∉ st.get s → applyOp st (.remove s a) = st)) ∧
+    (∀ key asc inplace, key.WellFormed →
+      (sort st s key asc inplace = .error .attr ↔ ∃ i ∈ st.get s, ∃ k, key.reads = some k ∧ (st.agent i).attr k = none) ∧
+      (∀ e, sort st s key asc inplace = .error e → e = .attr) ∧
       ((∃ i ∈ st.get s, key.eval (st.agent i) = none) → applyOp st (.sort s key asc inplace) = st)) ∧
-    (∀ key asSets, (group st s key asSets = .error .attr ↔ ∃ i ∈ st.get s, key.eval (st.agent i) = none) ∧
+    (∀ key asSets, key.WellFormed →
+      (group st s key asSets = .error .attr ↔ ∃ i ∈ st.get s, ∃ k, key.reads = some k ∧ (st.agent i).attr k = none) ∧
+      (∀ e, group st s key asSets = .error e → e = .attr) ∧
       ((∃ i ∈ st.get s, key.eval (st.agent i) = none) → applyOp st (.group s key asSets) = st)) ∧
-    (((pop st s).toOption = none ↔ st.get s = []) ∧ (st.get s = [] → applyOp st (.pop s) = st)) := by
-  refine ⟨fun a => ⟨?_, fun h => (C18_agents_remove_absent_reject_unchanged st s a h).2⟩, fun key asc inplace => ⟨?_, fun h => ?_⟩,
-    fun key asSets => ⟨?_, fun h => ?_⟩, ?_, fun h => (C18_agents_pop_empty_reject_unchanged st s h).2⟩
+    ((pop st s = .error .key ↔ st.get s = []) ∧ (∀ e, pop st s = .error e → e = .key) ∧
+      (st.get s = [] → applyOp st (.pop s) = st)) := by
+  have hreads : ∀ (key : Key) (i : Nat), key.eval (st.agent i) = none ↔ ∃ k, key.reads = some k ∧ (st.agent i).attr k = none := by
+    intro key i
+    cases key <;> simp [Key.eval, Key.reads]
+  have hex : ∀ key : Key, (∃ i ∈ st.get s, key.eval (st.agent i) = none) ↔
+      ∃ i ∈ st.get s, ∃ k, key.reads = some k ∧ (st.agent i).attr k = none := by
+    intro key
+    constructor
+    · rintro ⟨i, hi, h⟩; exact ⟨i, hi, (hreads key i).mp h⟩
+    · rintro ⟨i, hi, h⟩; exact ⟨i, hi, (hreads key i).mpr h⟩
+  refine ⟨fun a => ⟨?_, fun e he => ?_, fun h => (C18_agents_remove_absent_reject_unchanged st s a h).2⟩,
+    fun key asc inplace _ => ⟨?_, fun e he => ?_, fun h => ?_⟩,
+    fun key asSets _ => ⟨?_, fun e he => ?_, fun h => ?_⟩, ?_, fun e he => ?_, fun h => (C18_agents_pop_empty_reject_unchanged st s h).2⟩
   · by_cases h : a ∈ st.get s <;> simp [remove, h]
-  · rw [← mapM_option_eq_none]
+  · by_cases h : a ∈ st.get s <;> simp [remove, h] at he; exact he.symm
+  · rw [← hex, ← mapM_option_eq_none]
     show sort st s key asc inplace = .error .attr ↔ keysOf st key (st.get s) = none
     cases hk : keysOf st key (st.get s) <;> simp [sort, hk]
+  · cases hk : keysOf st key (st.get s) <;> simp [sort, hk] at he; exact he.symm
   · have : keysOf st key (st.get s) = none := (mapM_option_eq_none _ _).mpr h
     exact (C18_agents_sort_missing_key_reject_unchanged st s key asc inplace this).2
-  · rw [← mapM_option_eq_none]
+  · rw [← hex, ← mapM_option_eq_none]
     show group st s key asSets = .error .attr ↔ keysOf st key (st.get s) = none
     cases hk : keysOf st key (st.get s) <;> simp [group, hk]
+  · cases hk : keysOf st key (st.get s) <;> simp [group, hk] at he; exact he.symm
   · have : keysOf st key (st.get s) = none := (mapM_option_eq_none _ _).mpr h
     exact (C18_agents_groupby_missing_key_reject_unchanged st s key asSets this).2
   · cases hl : st.get s with
-    | nil => simp [pop, hl, popL, Except.toOption]
-    | cons a rest => simp [pop, hl, popL, Except.toOption]
+    | nil => simp [pop, hl, popL]
+    | cons a rest => simp [pop, hl, popL]
+  · cases hl : st.get s with
+    | nil => simp [pop, hl, popL] at he; exact he.symm
+    | cons a rest => simp [pop, hl, popL] at he
 
 /-- non-vacuity: agent 1 lacks attribute 1 -/
 example : sort { pop := [⟨0, 0, [(1, 5)]⟩, ⟨1, 0, []⟩], sets := [[0, 1]], rng := ⟨[]⟩ } 0 (.attr 1) true true = .error .attr ∧
